@@ -139,11 +139,37 @@ Theorem C13_composite_is_stateless : forall ml ms ht steps,
                         | _ => ([], Err TypeError, [], Ok None)
                         end) steps).
 Proof.
-  intros. cbn [run_model]. f_equal. apply map_ext. intros st.
+  intros. cbn [run_model]. unfold hist_model. f_equal. apply map_ext. intros st. cbn zeta.
   destruct (comp_get (table_H ht) ml ms 0 (map mk_source (st_srcs st)) (st_sys st) (st_pd st) (st_pv st)) as [g r].
   destruct (comp_find 0 (map mk_source (st_srcs st)) (st_fk st) (st_fv st)) as [f fr]. reflexivity.
 Qed.
 Print Assumptions C13_composite_is_stateless.
+
+(* construction from (name, config) descriptions: it succeeds only when every constituent can be created - then no
+   fault budget is touched - and otherwise fails at the first constituent that cannot, consuming exactly that one
+   failure and attempting nothing after it: a composite never exists with a constituent missing *)
+Theorem C13_construction_all_or_nothing : forall fails,
+  (fst (construct_once fails) = true -> Forall (fun n => n = 0%nat) fails /\ snd (construct_once fails) = fails) /\
+  (fst (construct_once fails) = false ->
+     exists pre n post, fails = pre ++ S n :: post /\ Forall (fun m => m = 0%nat) pre /\
+                        snd (construct_once fails) = pre ++ n :: post).
+Proof.
+  induction fails as [|[|n] r IH]; cbn [construct_once].
+  - split; [intros _; split; [constructor | reflexivity] | discriminate].
+  - destruct (construct_once r) as [ok r'] eqn:E. cbn [fst snd] in *. destruct IH as [I1 I2]. split.
+    + intros Hok. destruct (I1 Hok) as [F ->]. split; [constructor; [reflexivity | exact F] | reflexivity].
+    + intros Hok. destruct (I2 Hok) as (pre & m & post & -> & F & ->).
+      exists (0%nat :: pre), m, post. repeat split. constructor; [reflexivity | exact F].
+  - cbn [fst snd]. split; [discriminate|]. intros _. exists [], n, r. repeat split. constructor.
+Qed.
+Print Assumptions C13_construction_all_or_nothing.
+
+(* the calls on a composite that was built see every configured source, however many attempts the construction took *)
+Theorem C13_built_composite_is_complete : forall ml ms ht fails fexc tries steps,
+  built (construct fexc tries fails) = true ->
+  run_model (CBuild ml ms ht fails fexc tries steps) = OBuild (construct fexc tries fails) (hist_model ml ms ht steps).
+Proof. intros. cbn [run_model]. now rewrite H. Qed.
+Print Assumptions C13_built_composite_is_complete.
 
 (* with the same preceding version, different constituent versions give a different composite version,
    provided the hash has fixed-length output and does not collide on the strings hashed in the two runs *)
